@@ -1,6 +1,7 @@
 // ops of the `store` family: the entity tree (C02 C03 C04 C08 C09 C11 C12 C20 …)
 // Entities live in generator-chosen slots ($n). The canonical `dump` prints everything the public getters expose.
 #include "common.hpp"
+#include "store.hpp"
 #include <cstdio>
 #include <cstring>
 #include <sys/stat.h>
@@ -12,17 +13,6 @@ using namespace drv;
 
 namespace drv { namespace store {
 
-struct Ent {
-    char kind = '?';   // B block, S section, O source, A data array, D data frame, T tag, M multi tag, G group, R feature, P property
-    nix::Block b; nix::Section s; nix::Source o; nix::DataArray a; nix::DataFrame d; nix::Tag t; nix::MultiTag m; nix::Group g;
-    nix::Feature r; nix::Property p;
-};
-
-struct St {
-    nix::File file;
-    std::string path;
-    std::map<std::string, Ent> slots;
-};
 St &state() { static St s; return s; }
 
 void dropAll() {
